@@ -591,3 +591,78 @@ def _nonzero_guarded(f, node, div):
                     return scan(s.body)
         return False
     return scan(G.body_wo_doc(f))
+
+
+# ---------------------------------------------------------------------------------------------- N5
+N5_REASONS = {
+    ('utils:structparser', 'REPLACEMENTS_NE[c]'): 'H1: c ranges over the struct-code class of STRUCT_PACK_RE = the table keys',
+    ('utils:structparser', 'REPLACEMENTS_LE[c]'): 'H1',
+    ('utils:structparser', 'REPLACEMENTS_BE[c]'): 'H1',
+    ('utils:parse_single_struct_token', 'REPLACEMENTS_BE[f]'): 'H1: f is the struct-code group of SINGLE_STRUCT_PACK_RE',
+    ('utils:parse_single_struct_token', 'REPLACEMENTS_LE[f]'): 'H1',
+    ('utils:parse_single_struct_token', 'REPLACEMENTS_NE[f]'): 'H1',
+    ('bitarray_:BitArray.byteswap', 'utils.PACK_CODE_SIZE[f]'): 'H1: f comes from STRUCT_SPLIT_RE over a BYTESWAP_STRUCT_PACK_RE match',
+    ('bitarray_:BitArray.byteswap', 'utils.PACK_CODE_SIZE[f[-1]]'): 'H1',
+    ('bits:Bits._getfloatbe', "{16: '>e', 32: '>f', 64: '>d'}[len(self)]"): 'H2: the registry get_fn checks len(bs) against allowed_lengths = the table keys; _readtoken also converts KeyError',
+    ('bits:Bits._getfloatle', "{16: '<e', 32: '<f', 64: '<d'}[len(self)]"): 'H2',
+    ('bitstore_helpers:float2bitstore', "{16: '>e', 32: '>f', 64: '>d'}[length]"): 'H2: _setfloat rejects lengths outside the same list',
+    ('bitstore_helpers:float2bitstore', "{16: '<e', 32: '<f', 64: '<d'}[length]"): 'H2',
+    ('dtypes:Register.__getitem__', 'cls.names[name]'): 'callers pass Dtype.name of an existing Dtype or a name just checked against the layout tables (H3)',
+    ('dtypes:Dtype.__str__', 'dtype_register.names[self._name]'): 'the Dtype was created from this registry entry',
+    ('dtypes:Dtype.__repr__', 'dtype_register.names[self._name]'): 'the Dtype was created from this registry entry',
+    ('dtypes:Dtype._create', 'dtype_register.names[x._name]'): 'x._name is definition.name of a registered definition',
+    ('dtypes:Register.add_dtype_alias', 'cls.names[name]'): 'H3: every alias source is registered before use (both byte-order branches)',
+    ('dtypes:Register.add_dtype_alias', 'cls.names[alias]'): 'assigned on the previous line',
+    ('fp8:Binary8Format.decompress_luts', 'binary8_luts_compressed[self.exp_bits, self.bias]'): 'H5c: every format object has its table key',
+    ('mxfp:MXFPFormat.decompress_luts', 'mxfp_luts_compressed[self.exp_bits, self.mantissa_bits, self.bias, self.mxfp_overflow]'): 'H5c',
+}
+
+
+def rule_N5(ctx):
+    """Every lookup in a dict table by a run-time key is guarded (membership test, try/except KeyError) or justified."""
+    m = ctx.m
+    r = RuleResult('N5', 'dict-table lookups cannot raise KeyError to the caller')
+    n = 0
+    for f in m.funcs.values():
+        fa = None
+        for x in own_walk(f.node):
+            if not (isinstance(x, ast.Subscript) and isinstance(x.ctx, ast.Load)):
+                continue
+            base = x.value
+            is_table = isinstance(base, ast.Dict)
+            if not is_table:
+                txt = ast.unparse(base)
+                nm = txt.split('.')[-1]
+                for mod in m.mods:
+                    gv = m.modglobals[mod].get(nm)
+                    if isinstance(gv, ast.Dict) and (txt == nm and (mod == f.mod or nm in m.imports[f.mod]) or txt.endswith('.' + nm)):
+                        is_table = True
+                if nm in ('names', '_largest_values') and isinstance(base, ast.Attribute):
+                    is_table = True
+            if not is_table or isinstance(x.slice, ast.Slice):
+                continue
+            n += 1
+            key = norm(x)
+            # guarded by try/except KeyError (or a superclass)
+            guarded = False
+            for t in own_walk(f.node):
+                if isinstance(t, ast.Try) and any(x is y for b in t.body for y in ast.walk(b)):
+                    if any(G.handler_names(h) & {'KeyError', 'LookupError', 'Exception', '*'} for h in t.handlers):
+                        guarded = True
+                if isinstance(t, ast.If) and any(x is y for b in t.body for y in ast.walk(b)):
+                    tt = ast.unparse(t.test)
+                    if f'{ast.unparse(x.slice)} in {ast.unparse(base)}' in tt:
+                        guarded = True
+                if isinstance(t, (ast.For, ast.comprehension)) and ast.unparse(t.target) == ast.unparse(x.slice) and \
+                        ast.unparse(t.iter) in (ast.unparse(base), ast.unparse(base) + '.keys()'):
+                    guarded = True       # the key iterates over the table itself
+            if guarded:
+                r.ok(f'{f.key}:{key}', {'instance': f.key, 'lookup': key, 'verdict': 'membership test / KeyError handler'})
+            elif (ctx.rk(f.key), key) in N5_REASONS:
+                r.ok(f'{f.key}:{key}', reason=True)
+            else:
+                r.fail(f.key, key, 'a table is indexed by a run-time key with no membership test, no KeyError handler and no reviewed reason: an '
+                       'unexpected key reaches the caller as KeyError', loc=f.loc(x))
+    if n < 15:
+        raise AnalysisError(f'only {n} table lookups found (floor 15)')
+    return r
